@@ -46,6 +46,16 @@ def configs(tier, rnd):
                 if pm is not None:
                     para["marks"] = pm
                 out.append({"nodes": {"doc": {"content": "block+"}, "paragraph": para, "text": {"group": "inline"}}, "marks": marks})
+    # group names that contain one another, marks in several groups: a group reference must match whole names
+    for ga, gb in (("g", "gg"), ("font", "fontsize"), ("x g", "gx"), ("link", "hyperlink x")):
+        ref = ga.split()[-1]
+        for ex_c in (ref, "_", ""):
+            for pm in (ref, gb.split()[0], None):
+                marks = {"a": {"group": ga}, "b": {"group": gb}, "c": {"excludes": ex_c}, "d": {"group": gb, "excludes": ref}}
+                para = {"content": "text*", "group": "block"}
+                if pm is not None:
+                    para["marks"] = pm
+                out.insert(0, {"nodes": {"doc": {"content": "block+"}, "paragraph": para, "text": {"group": "inline"}}, "marks": marks})
     return out
 
 
